@@ -276,7 +276,7 @@ func (sh *Shared) verifyFunc(fn *ssa.Function, opt Options) (res *FuncResult) {
 		}
 		sort.Strings(compNames)
 		for _, c := range compNames {
-			if !strings.HasPrefix(c, "ghost$") {
+			if !strings.HasPrefix(c, "ghost$") || strings.HasPrefix(c, "ghost$iter$") {
 				continue
 			}
 			listed := false
@@ -363,8 +363,8 @@ func (e *Engine) addModTarget(m string, sp *FuncSpec, sig *types.Signature, env 
 		e.modTargets = append(e.modTargets, modTarget{comp: c, whole: true})
 		return nil
 	}
-	if strings.HasSuffix(m, "[*]") {
-		ex, err := ParseExpr(strings.TrimSuffix(m, "[*]"))
+	if strings.HasSuffix(m, "[*]") || strings.HasSuffix(m, "[:]") {
+		ex, err := ParseExpr(strings.TrimSuffix(strings.TrimSuffix(m, "[*]"), "[:]"))
 		if err != nil {
 			return err
 		}
@@ -374,7 +374,11 @@ func (e *Engine) addModTarget(m string, sp *FuncSpec, sig *types.Signature, env 
 		}
 		switch u := v.Ty.Underlying().(type) {
 		case *types.Slice:
-			e.modTargets = append(e.modTargets, modTarget{comp: e.elemComp(u.Elem()), addr: "(s_arr " + v.T + ")"})
+			ext := "(s_cap " + v.T + ")"
+			if strings.HasSuffix(m, "[:]") {
+				ext = "(s_len " + v.T + ")"
+			}
+			e.modTargets = append(e.modTargets, modTarget{comp: e.elemComp(u.Elem()), addr: "(s_arr " + v.T + ")", lo: "(s_off " + v.T + ")", hi: "(+ (s_off " + v.T + ") " + ext + ")"})
 		case *types.Map:
 			d, vv := e.mapComps(u)
 			e.modTargets = append(e.modTargets, modTarget{comp: d, addr: v.T}, modTarget{comp: vv, addr: v.T})
